@@ -7,6 +7,7 @@ import (
 	"fmt"
 	"sort"
 	"strings"
+	"sync"
 
 	"github.com/cyrildever/feistel"
 	futils "github.com/cyrildever/feistel/common/utils"
@@ -252,6 +253,45 @@ func exemplarsKey(es pmetric.ExemplarSlice) string {
 	}
 	return out
 }
+
+// flipCtx is a context whose Err() turns to Canceled at its n-th look (and whose Done channel closes then): a request that is
+// cancelled, or whose deadline passes, while the processor is half-way through the batch
+type flipCtx struct {
+	context.Context
+	mu    sync.Mutex
+	left  int
+	done  chan struct{}
+	ended bool
+}
+
+// callCtx: a third of the calls run under a context that ends at some point while the batch is being processed; whatever
+// is forwarded must be obfuscated all the same
+func callCtx(r *Rng) (context.Context, bool) {
+	if r.Chance(33) {
+		return newFlipCtx(r.Intn(14)), true
+	}
+	return context.Background(), false
+}
+
+func newFlipCtx(n int) *flipCtx {
+	return &flipCtx{Context: context.Background(), left: n, done: make(chan struct{})}
+}
+
+func (c *flipCtx) Err() error {
+	c.mu.Lock()
+	defer c.mu.Unlock()
+	if c.left > 0 {
+		c.left--
+		return nil
+	}
+	if !c.ended {
+		c.ended = true
+		close(c.done)
+	}
+	return context.Canceled
+}
+
+func (c *flipCtx) Done() <-chan struct{} { return c.done }
 
 type gen struct {
 	r     *Rng
@@ -594,8 +634,14 @@ func runObf(o opts, out *Output) {
 				td := g.traces()
 				in := flattenTraces(td)
 				inMaps = append(inMaps, in.maps)
-				if err := p.ConsumeTraces(ctx, td); err != nil {
+				before := len(cp.t)
+				cctx, flips := callCtx(r)
+				if err := p.ConsumeTraces(cctx, td); err != nil && !flips {
 					out.Violation("C17", "processor-error", err.Error(), nil)
+				}
+				if len(cp.t) == before {
+					inMaps = inMaps[:len(inMaps)-1]
+					continue // refused with an error, nothing forwarded (only possible under an ending context)
 				}
 				res := flattenTraces(cp.t[len(cp.t)-1])
 				pairs = append(pairs, fmt.Sprintf("(%s,\n   %s)", in, res))
@@ -611,7 +657,13 @@ func runObf(o opts, out *Output) {
 				ld := g.logs()
 				in := flattenLogs(ld)
 				inMaps = append(inMaps, in.maps)
-				_ = p.ConsumeLogs(ctx, ld)
+				before := len(cp.l)
+				cctx, _ := callCtx(r)
+				_ = p.ConsumeLogs(cctx, ld)
+				if len(cp.l) == before {
+					inMaps = inMaps[:len(inMaps)-1]
+					continue
+				}
 				res := flattenLogs(cp.l[len(cp.l)-1])
 				pairs = append(pairs, fmt.Sprintf("(%s,\n   %s)", in, res))
 				nattrs += in.attrs
@@ -626,7 +678,13 @@ func runObf(o opts, out *Output) {
 				md := g.metrics()
 				in := flattenMetrics(md)
 				inMaps = append(inMaps, in.maps)
-				_ = p.ConsumeMetrics(ctx, md)
+				before := len(cp.m)
+				cctx, _ := callCtx(r)
+				_ = p.ConsumeMetrics(cctx, md)
+				if len(cp.m) == before {
+					inMaps = inMaps[:len(inMaps)-1]
+					continue
+				}
 				res := flattenMetrics(cp.m[len(cp.m)-1])
 				pairs = append(pairs, fmt.Sprintf("(%s,\n   %s)", in, res))
 				nattrs += in.attrs
